@@ -4,14 +4,14 @@ CONSTANTS
   Gaps <- GapsFixed2
   T = 10
   D = 1
-  MaxEvents = 2
-  MaxFails = 1
+  MaxEvents = 3
+  MaxFails = 2
+  Extra = "start"
   Backoff = TRUE
   Closed = TRUE
-  ObserveCb = FALSE
-  TrackQuiet = FALSE
+  ObserveCb = TRUE
+  TrackQuiet = TRUE
   UnitMs = 1000
 INVARIANTS TypeOK Converged LearnsLive ForgetsDead SelfListed PeriodRestored NoDuplicateAddr ChannelSane
 PROPERTIES CallbackIffChange NoResurrection
-ACTION_CONSTRAINT Dump
 VIEW View
